@@ -33,7 +33,7 @@ CHECKS = {
                 text="All 10 implications of the chain on every (base, query, mode) of: structure representatives of <=4-subsets of literal conditionals, all shipped birds/gen/AO knowledge bases with their query files, a slice of the 484 two-atom representatives, random_large families 6_6..20_20 (thorough: all 100 bases of 12 families up to 60_60) with complete query files plus all 48 literal queries over the first four atoms.",
                 note="Compares the implementation with itself, so it scales to dozens of atoms; single-answer correctness is C01-C07's business."),
     "C10": dict(cat="exploration", tech="bounded-exhaustive enumeration of token strings / ASTs / layouts / single-token mutations against an independent recursive-descent recogniser", ref="DESIGN.md 4/C10",
-                text="All 299 592 token strings of length <=6 over an 8-token alphabet (thorough <=7), all depth-2 ASTs in minimal and full parenthesisation x 5 layouts, all one-conditional bases x 8 file layouts, every single-token deletion/duplication/substitution/insertion of three files and two query lists; accepted => in the reference language with the same meaning, signature, order, keys, orientation, re-parsable text.",
+                text="All 299 592 token strings of length <=6 over an 8-token alphabet (thorough <=7), all token strings of length <=4 with one line break (LF, CRLF, comment+LF, blank line) at every gap, all depth-2 ASTs in minimal and full parenthesisation x 5 layouts, all one-conditional bases x 8 file layouts, every single-token deletion/duplication/substitution/insertion of three files and two query lists; accepted => in the reference language with the same meaning, signature, order, keys, orientation, re-parsable text.",
                 note="Trusted: vf/refparse.py, deliberately generous on layout (ignores newlines) and strict on token structure and end of input; rejections by the implementation are never violations."),
     "C15": dict(cat="exploration", tech=E_IN, ref="DESIGN.md 4/C15",
                 text="(a) every conditional of three formula families through belief_base_to_cnf and query_to_cnf x all complete assignments, satisfiability under the assignment decided by a hand-written DPLL; (b) minimal_correction_subsets on every WCNF shape the operators build (layers, fixed ties, c-inference compilations, unsatisfiable hard parts) for structure representatives x 5 rc2 SAT engines (thorough: all usable), against the inclusion-minimal falsification sets computed over worlds.",
@@ -54,11 +54,11 @@ CHECKS = {
                 text="Every transformation of the menu (key maps incl. 0-based / sparse / all permutations, all dict orders, atom permutations and fresh names, signature reversal / extension, seven equivalence-preserving rewrites of base or query, selected pairs) applied to structure representatives over two and three atoms x all operator/back-end/mode combinations; the answer vector must equal the canonical presentation's.",
                 note="Non-negative integer keys only. Compares the implementation with itself."),
     "C13": dict(cat="model_checking", tech="stateless exploration of all operation sequences up to a depth bound on real manager objects + explicit-state BFS with canonicalised epistemic state + exhaustive schedule enumeration over a controlled multiprocessing double (real forked workers)", ref="DESIGN.md 4/C13",
-                text="All sequences of depth <=2 (thorough 3) over 30 batches (duplicate query texts, keys colliding with batch positions, a negative key, a deep-nested pair, a vacuous query, a re-used key) x sequential / parallel, per (base, operator, back-end, mode); merged BFS over the canonical epistemic state until closure with the canonical form validated by un-merged depth-3 runs; all worker-delivery schedules for k=1..3 workers (done / done-at-join / late / alive-lost / alive-wrote per worker and every completion order of the early finishers); oracle per call: one row per query, order, own key, own text, answer as alone on a fresh manager (or flagged timed out), no process left un-joined; plus calls through the real multiprocessing module checking active_children().",
+                text="All sequences of depth <=2 (thorough 3) over 30 batches (duplicate query texts, keys colliding with batch positions, a negative key, a deep-nested pair, a vacuous query, a re-used key) x sequential / parallel, per (base, operator, back-end, mode; the bases include one with a conditional no world falsifies); merged BFS over the canonical epistemic state until closure with the canonical form validated by un-merged depth-3 runs; all worker-delivery schedules for k=1..3 workers (done / done-at-join / late / alive-lost / alive-wrote per worker and every completion order of the early finishers); oracle per call: one row per query, order, own key, own text, answer as alone on a fresh manager (or flagged timed out), no process left un-joined; plus calls through the real multiprocessing module checking active_children().",
                 note="Worker completion is modelled at call granularity (visibility of a worker's writes relative to join/is_alive/terminate); OS scheduling inside a worker is not modelled."),
     "C14": dict(cat="fault_enumeration", tech="deviation-bounded exhaustive enumeration of environment answers (deadline observations, solver verdicts, clock reads) at every observation point of real executions, incl. points inside forked workers", ref="DESIGN.md 4/C14",
-                text="For every (base, operator, back-end, mode, budget configuration in {0,T}^3, sequential/parallel): the 0-deviation execution, then every single deviation at every observation point (thorough: every pair): Deadline observed as expired (sticky), Optimize.check() -> unknown (no model / feasible non-optimal model / forever), preprocessing clock +T/+2T. Each execution is a 3-query call plus a later call on the same manager; oracle: no exception escapes, every row flagged-with-False or equal to the run without budgets.",
-                note="Expiry is modelled at the granularity of the code's own observations; z3's internal timeout is never armed, real time never fires (T=1000 s)."),
+                text="For every (base, operator, back-end, mode, budget configuration in {0,T}^3, sequential/parallel): the 0-deviation execution, then every single deviation at every observation point (thorough: every pair): Deadline observed as expired (sticky), Optimize.check() -> unknown (no model / feasible non-optimal model / forever), preprocessing clock +T/+2T. Each execution is a 3-query call plus a later call on the same manager; a second family over four atoms (three bases, queries selected by the reference model for a top-layer tie / an enumeration that must be complete) re-asks every query in the later call and runs the z3 back-ends under both iteration orders of their conditional sets; oracle: no exception escapes, every row flagged-with-False or equal to the run without budgets.",
+                note="Expiry is modelled at the granularity of the code's own observations; z3's internal timeout is never armed, real time never fires (T=1000 s). The iteration order of the z3 back-ends' address-hashed conditional sets is owned by the harness (ascending / descending); a replay that diverges is a harness error (exit 2), never a violation."),
     "C17": dict(cat="exploration", tech=E_IN, ref="DESIGN.md 4/C17",
                 text="Every strongly consistent base of the two-atom scopes and structure representatives over three atoms: construction, natural impacts, rank = sum of impacts of falsified conditionals, acceptance of the base, Pareto minimality by enumerating every vector below the impact vector, acceptance of every query c-inference (implementation and reference) entails, and the Pareto-front enumeration: terminates (check() calls counted) and equals the minimal c-representations of a box containing all returned vectors.",
                 note="Trusted: brute force over worlds and impact boxes. Keys 1..n only."),
@@ -66,7 +66,7 @@ CHECKS = {
                 text="All priors -> {0..2} over one atom and a third of those over two atoms (thorough: all, plus three atoms) x all lists of 1-2 revision conditionals of a 12-element alphabet x gamma_plus_zero x 5 fixed-value maps x {fast, incremental}: returned parameters are naturals, respect fixed values, revised ranking accepts all; None only without witness in a box; never raises; Pareto minimality by enumerating the box below; three compilations equal the definition. CRevisionModel: every add/remove sequence of depth <=3 (thorough 4) over 4 conditionals keeps to_compilation() equal to a fresh reference compilation.",
                 note="'None' is judged against witnesses in a finite box only (sound, incomplete)."),
     "C20": dict(cat="fault_enumeration", tech="exhaustive enumeration of partial-computation states x save/load channels (same process and a fresh interpreter) and of every failure point of every save operation (open fails, k-th write fails for every k, unpicklable member in each attribute)", ref="DESIGN.md 4/C20",
-                text="Every object kind (custom, System Z with/without facts and extended, c-representation, built from an impact list) x every subset of computed worlds (2 atoms) / prefix and singleton (3 atoms): save_ocf then load_ocf in-process and in a fresh interpreter must give the same signature, ranks (as saved, lazily continued, completed), impacts and acceptance; impacts and metadata round trips over all formats; every save operation with every single write failure / open failure / unpicklable attribute must raise and leave ranks, impacts, metadata, _optimizer/_csp untouched and the object answering as before.",
+                text="Every object kind (custom, System Z with/without facts and extended, c-representation, built from an impact list) x every subset of computed worlds (2 atoms) / prefix and singleton (3 atoms): save_ocf then load_ocf in-process and in a fresh interpreter must give the same signature, ranks (as saved, lazily continued, completed), impacts and acceptance; impacts (incl. vectors of 9..24 distinct components) and metadata round trips over all formats; every save operation with every single write failure / open failure / unpicklable attribute must raise and leave ranks, impacts, metadata, _optimizer/_csp untouched and the object answering as before.",
                 note="Fresh interpreter = sub-process of the same Python installation that first allocates unrelated formula nodes. Timestamps/provenance metadata keys are ignored."),
 }
 
